@@ -10,7 +10,7 @@ ALLBAD = '{"directive", "signature", "conversion", "unknown2", "enumkeys2", "fie
 FEWBAD = '{"conversion", "marker", "format"}'
 ONEBAD = '{"conversion"}'
 ALLLAY = '{"separate", "same", "shared", "tie", "twofiles"}'
-ALLTAG = '{"default", "custom", "multi"}'
+ALLTAG = '{"default", "custom", "multi", "envtag"}'
 # (HistLen, Variants, ArgLen, WithPlace, WithArgv, BadKinds, Layouts, Tags) per property and tier
 PARAMS = {
     ("C09", "quick"): (3, ALLV, 1, False, False, '{"conversion", "conversion2", "ctxmissing3", "unknown2", "fieldtargets2", "twopkgs", "twomarkers"}', '{"separate", "shared", "tie"}', '{"default"}'), ("C09", "thorough"): (3, ALLV, 1, True, False, ALLBAD, ALLLAY, ALLTAG),
